@@ -9,8 +9,10 @@ mod c09;
 mod c10;
 mod c11;
 mod c12;
+mod c13;
 mod c15;
 mod c16;
+mod c17;
 mod c18;
 mod c20;
 mod common;
@@ -43,8 +45,10 @@ macro_rules! dispatch {
             "C10" => c10::$f($($a),*),
             "C11" => c11::$f($($a),*),
             "C12" => c12::$f($($a),*),
+            "C13" => c13::$f($($a),*),
             "C15" => c15::$f($($a),*),
             "C16" => c16::$f($($a),*),
+            "C17" => c17::$f($($a),*),
             "C18" => c18::$f($($a),*),
             "C20" => c20::$f($($a),*),
             _ => { eprintln!("unknown property {}", $id); std::process::exit(2) }
